@@ -742,6 +742,45 @@ pub fn usability_probe(conn: &mut Conn<'_, '_>) {
     }
 }
 
+/// C12 "leaves the session fully usable": the keep-alive works on the reconnected session too.
+/// The application waits in poll() for one keep-alive period; the prompt broker answers every
+/// PINGREQ. A PINGREQ must go out and the connection must stay up.
+fn keepalive_probe(conn: &mut Conn<'_, '_>) {
+    if !conn.is_connected() || with(|w| w.cut || w.ids_ambiguous) {
+        return;
+    }
+    let Some(k) = with(|w| crate::broker::keepalive_eff(w, w.cur)).filter(|k| *k > 0) else { return };
+    let start = clock::now();
+    let n0 = with(|w| w.conns[w.cur].packets.len());
+    let until = start + k as u64 * clock::US_PER_S + clock::US_PER_S;
+    with(|w| w.probe("final_keepalive_probe"));
+    let mut died = None;
+    for _ in 0..64 {
+        let now = clock::now();
+        if now >= until {
+            break;
+        }
+        let opts = ExecOpts { cancellable: true, idle_cancel: true, budget_us: Some(until - now), timer_is_idle: false };
+        let r = do_wait(conn, Wait::Poll, Some(opts));
+        if r.is_fatal() || !conn.is_connected() {
+            died = Some(r.name());
+            break;
+        }
+    }
+    with(|w| {
+        if w.cut {
+            return;
+        }
+        let cur = w.cur;
+        let pinged = w.conns[cur].packets[n0.min(w.conns[cur].packets.len())..].iter().any(|p| matches!(p.pkt, crate::codec::Packet::PingReq));
+        if let Some(why) = died {
+            w.violate("C12", format!("probe-keepalive/connection-lost/{why}"), format!("the reconnected session lost its connection to a prompt broker while idle for one keep-alive period ({k} s)"));
+        } else if !pinged {
+            w.violate("C12", "probe-keepalive/no-pingreq-within-keepalive".into(), format!("the reconnected, idle session sent no PINGREQ within its keep-alive of {k} s (+1 s)"));
+        }
+    });
+}
+
 pub fn final_phase(session: &mut Session<'_>, mut drained: bool) {
     with(|w| {
         w.benign = true;
@@ -792,6 +831,7 @@ pub fn final_phase(session: &mut Session<'_>, mut drained: bool) {
                 drained = benign_drain(&mut conn);
                 if drained {
                     usability_probe(&mut conn);
+                    keepalive_probe(&mut conn);
                 }
                 with(|w| close_conn(w, "end of run"));
             }
@@ -917,6 +957,82 @@ fn dense_identifier_prefix(conn: &mut Conn<'_, '_>) {
         // one full cycle (65535 identifiers) minus what was allocated, give or take
         conn.verif_burn_packet_ids(65535 - allocated + off);
         with(|w| w.probe("identifier_counter_wrapped_with_ops_in_flight"));
+    }
+}
+
+/// C07: an operation of one kind keeps identifier X (a SUBSCRIBE awaiting SUBACK, or a QoS 2
+/// exchange awaiting PUBCOMP); an operation of the *other* kind gets an identifier a power-of-two
+/// multiple away from X and completes; then the counter goes round once so that the next
+/// allocation starts at X. Bookkeeping that summarises identifiers (bitmaps, hashes, sorted
+/// lists, per-kind tables) must still know that X is taken.
+fn alias_identifier_prefix(conn: &mut Conn<'_, '_>) {
+    if with(|w| w.conns[w.cur].max_qos < 2) {
+        return;
+    }
+    let opts = ExecOpts { cancellable: true, idle_cancel: true, budget_us: None, timer_is_idle: true };
+    let small = |w: &mut World, q: u8| {
+        let mut s = gen_publish(w, q);
+        s.payload.truncate(4);
+        s.props.clear();
+        s.correlate = None;
+        s.payload_fails = false;
+        s
+    };
+    let drain = |conn: &mut Conn<'_, '_>| {
+        for _ in 0..6 {
+            let r = do_wait(conn, Wait::Poll, Some(opts));
+            if r == Res::Cancelled || r.is_fatal() {
+                break;
+            }
+        }
+    };
+    let (variant, d) = with(|w| {
+        w.probe("identifier_alias_block");
+        let m = [8u32, 16, 32, 64, 128, 256, 1024, 4096][w.tape.choose(8) as usize];
+        (w.tape.choose(2), m * (1 + w.tape.choose(3)))
+    });
+    // the long-lived owner of X
+    let ok = if variant == 0 {
+        with(|w| w.hold_acks = true);
+        let mut spec = with(gen_subscribe);
+        spec.filters.truncate(1);
+        spec.props.clear();
+        let r = do_subscribe(conn, &spec);
+        drain(conn);
+        with(|w| w.hold_acks = false);
+        r == Res::OkOp
+    } else {
+        with(|w| w.hold_pubcomp = true);
+        let spec = with(|w| small(w, 2));
+        let r = spec.qos == 2 && do_publish(conn, &spec) == Res::OkOp;
+        drain(conn);
+        with(|w| w.hold_pubcomp = false);
+        r
+    };
+    if !ok || !conn.is_connected() {
+        return;
+    }
+    conn.verif_burn_packet_ids(d - 1);
+    // the alias: the other kind of operation, d identifiers further on, runs to completion
+    let spec = with(|w| small(w, if variant == 0 { 2 } else { 1 }));
+    if spec.qos == 0 || do_publish(conn, &spec) != Res::OkOp {
+        return;
+    }
+    drain(conn);
+    drain(conn);
+    if !conn.is_connected() {
+        return;
+    }
+    // once round: the next allocation starts at X
+    conn.verif_burn_packet_ids(65534 - d);
+    with(|w| {
+        w.burn_done = true;
+        w.probe("identifier_counter_wrapped_onto_aliased_identifier");
+    });
+    let spec = with(|w| small(w, 1));
+    if spec.qos == 1 {
+        let _ = do_publish(conn, &spec);
+        drain(conn);
     }
 }
 
@@ -1057,6 +1173,8 @@ pub fn scenario_general(session: &mut Session<'_>) {
                 }
                 if ci == 0 && with(|w| w.cfg.profile == Profile::IdWrap && w.cfg.dense_ids) {
                     dense_identifier_prefix(&mut conn);
+                } else if ci == 0 && with(|w| w.cfg.profile == Profile::IdWrap && !(65000..=65535).contains(&burn) && w.tape.chance(1, 3)) {
+                    alias_identifier_prefix(&mut conn);
                 }
                 if ci == 0 && with(|w| w.cfg.profile == Profile::Quota && w.tape.chance(1, 6)) {
                     release_saturation_prefix(&mut conn);
